@@ -45,6 +45,10 @@ RULE = ('one run = one seeded history through a live connection on a DB '
         'ValueError; one evaluation = one historical open; non-trivial = '
         'the bound lies before the last transaction; distinct = (kind, '
         'history hash, form, index)')
+RULE += ('  '
+         'Later additions: reopen with the wall clock behind the '
+         'newest transaction (file kind); packs are only made when the '
+         'float pack time still lies before the chosen point. ')
 BUDGET = {'quick': {'runs': 4000, 'wall': 300, 'chunk': 10},
           'thorough': {'runs': 300000, 'wall': 1200, 'chunk': 50}}
 ASSUMPTIONS = [
